@@ -7,6 +7,7 @@ with the LIST fallback): mkdir, cd + pwd, cd up, upload, list (MLSD), list
 (raw LIST), stat, download, rename away and back, remove - comparing the
 backend tree, PWD, listings and bytes after every step.  DESIGN.md §5 C08.
 """
+import asyncio
 import itertools
 import json
 import pathlib
@@ -132,6 +133,25 @@ def scenario(name, depth, fallback, encoding="utf-8"):
             data = await stream.read()
         if data != DATA:
             problems.append({"kind": "download", "step": "download_stream", "got": repr(data)})
+        # 8a the bare name in a transfer command whose data connection is made later, the working directory having
+        # changed meanwhile: the name means what it meant when the command was given
+        if name not in (".", ".."):
+            await c.change_directory(d)
+            code, info = await c.command("EPSV", "229")
+            _, port = c.parse_epsv_response(info[-1])
+            await c.command("RETR " + name, "1xx")
+            await c.change_directory(P)
+            reader, writer = await asyncio.open_connection("127.0.0.1", port)
+            late = await reader.read()
+            writer.close()
+            try:
+                await c.command(None, "2xx")
+            except a.StatusCodeError as exc:
+                problems.append({"kind": "download", "step": "late-data-connection-relative-name", "got": repr(exc)[:120]})
+            else:
+                if late != DATA:
+                    problems.append({"kind": "download", "step": "late-data-connection-relative-name", "got": repr(late)})
+            await c.change_directory("/")
         # 8b another session sees and changes the same name; this session must see that at once
         c2 = a.Client(path_io_factory=a.MemoryPathIO, encoding=encoding)
         await c2.connect("127.0.0.1", 2121)
